@@ -10,6 +10,8 @@ from kappadata.datasets import KDDataset, KDSubset, KDWrapper
 from vlib import treg
 from vlib.core import Case, Facet, Refused, Violation
 
+# thorough-tier budgets of every facet are multiplied by this factor (sized for ~5-8 min on 16 cores)
+THOROUGH_SCALE = 4
 LEVEL = "exploration"
 RULE = ("spec = seeded wrapper stack (X/Y/Source/Target transform wrappers with registry transforms incl. composites, "
         "KDMultiViewWrapper 1-3 configs x 1-3 views, KDMixWrapper, SemsegTransformWrapper, BYOL / ImageNet-minaug / MUGS "
